@@ -1910,7 +1910,11 @@ int flatcc_builder_get_level(flatcc_builder_t *B)
 void flatcc_builder_set_max_level(flatcc_builder_t *B, int max_level)
 {
     B->max_level = max_level;
-    if (B->limit_level < B->max_level) {
+    /*
+     * limit_level never exceeds the number of allocated frames; it may only be
+     * clamped down here, enter_frame raises it when it allocates.
+     */
+    if (B->max_level > 0 && B->limit_level > B->max_level) {
         B->limit_level = B->max_level;
     }
 }
